@@ -2,6 +2,7 @@ package main
 
 import (
 	"go/token"
+	"go/types"
 	"strings"
 
 	"golang.org/x/tools/go/ssa"
@@ -15,6 +16,8 @@ var round2Docs = map[string]map[string]string{
 	"C24": {"C24.R5": "pairing: popped stream-expiry item ⇔ index entry", "C24.R6": "pairing: state entry delete ⇒ deadline record delete"},
 	"C15": {"C15.R6": "error discipline: a child's validation error is returned before the next child"},
 	"C14": {"C14.R6": "K2: the medium's delta base does not depend on the publication's delta flag"},
+	"C22": {"C22.R4": "K4 who-may-call: the raw map channel options resolver"},
+	"C02": {"C02.R7": "paired fields: (Offset, Epoch) copied from one source"},
 	"C16": {"C16.R4": "K1: prepared data complete before it is copied into the caches; marker used whenever wasFiltered"},
 }
 
@@ -46,6 +49,10 @@ func hookRound2(c *Ctx, prop string) {
 		runBaseFollowsEveryPublication(c)
 	case "C16":
 		runPreparedDataComplete(c)
+	case "C22":
+		runResolverOnlyThroughValidate(c)
+	case "C02":
+		runPositionPair(c)
 	}
 }
 
@@ -352,4 +359,125 @@ func runPreparedDataComplete(c *Ctx) {
 		})
 		c.Anchor("C16.R4", "SyncPublication call in writePublication", k >= 1)
 	}
+}
+
+// runResolverOnlyThroughValidate (C22.R4): map channel options reach the brokers only through
+// ResolveAndValidateMapChannelOptions, which applies the defaults (StreamSize 0 → 100, TTLs, page sizes)
+// and the mode validation. A direct call of the resolver function value sees the raw, un-defaulted
+// options: e.g. the key-TTL worker would treat a default-sized stream as "no stream" and drop the
+// removal entry a recovering client needs.
+func runResolverOnlyThroughValidate(c *Ctx) {
+	w := c.W
+	n := 0
+	for _, f := range w.AllFuncs {
+		if !w.inModule(f) || strings.HasSuffix(w.Pos(f.Pos()), "_test.go") {
+			continue
+		}
+		EachInstr(f, func(in ssa.Instruction) {
+			ci := asCall(in)
+			if ci == nil || ci.Common().IsInvoke() || ci.Common().StaticCallee() != nil {
+				return
+			}
+			sig := ci.Common().Signature()
+			if sig == nil || sig.Params().Len() != 1 || sig.Results().Len() != 1 || typeShort(sig.Results().At(0).Type()) != "MapChannelOptions" {
+				return
+			}
+			n++
+			root := f
+			for root.Parent() != nil {
+				root = root.Parent()
+			}
+			c.Check("C22.R4", ci, "map channel options resolver invoked only inside ResolveAndValidateMapChannelOptions", root.Name() == "ResolveAndValidateMapChannelOptions",
+				"a direct call sees the raw options without defaults (StreamSize 0 instead of 100, unset TTLs): code that decides on them behaves as if the channel had no stream")
+		})
+	}
+	c.Anchor("C22.R4", "invocations of the map channel options resolver", n >= 1)
+}
+
+// runPositionPair (C02.R7): a stream position is the pair (offset, epoch). Wherever an Offset field is
+// copied from another object's Offset into a struct that also has an Epoch field, the Epoch is copied
+// from the same source object in the same function — an empty epoch is a wildcard for both epoch guards
+// of recovery, so a dropped epoch turns "different stream" into "recovered".
+func runPositionPair(c *Ctx) {
+	w := c.W
+	hasField := func(t types.Type, name string) bool {
+		st, ok := deref(t).Underlying().(*types.Struct)
+		if !ok {
+			return false
+		}
+		for i := 0; i < st.NumFields(); i++ {
+			if st.Field(i).Name() == name {
+				return true
+			}
+		}
+		return false
+	}
+	// source of a value: (base object, field name) of a field read
+	srcOf := func(v ssa.Value) (ssa.Value, string, bool) {
+		switch x := v.(type) {
+		case *ssa.UnOp:
+			if fa, ok := x.X.(*ssa.FieldAddr); ok {
+				if st, ok := deref(fa.X.Type()).Underlying().(*types.Struct); ok {
+					return fa.X, st.Field(fa.Field).Name(), true
+				}
+			}
+		case *ssa.Field:
+			if st, ok := x.X.Type().Underlying().(*types.Struct); ok {
+				return x.X, st.Field(x.Field).Name(), true
+			}
+		}
+		return nil, "", false
+	}
+	n := 0
+	for _, f := range w.AllFuncs {
+		if !w.inModule(f) || strings.HasSuffix(w.Pos(f.Pos()), "_test.go") || strings.Contains(FuncName(f), "controlpb") || strings.Contains(FuncName(f), "/internal/") {
+			continue
+		}
+		EachInstr(f, func(in ssa.Instruction) {
+			st, ok := in.(*ssa.Store)
+			if !ok {
+				return
+			}
+			fa, ok := st.Addr.(*ssa.FieldAddr)
+			if !ok {
+				return
+			}
+			tt, isS := deref(fa.X.Type()).Underlying().(*types.Struct)
+			if !isS || tt.Field(fa.Field).Name() != "Offset" || !hasField(fa.X.Type(), "Epoch") {
+				return
+			}
+			sb, sf, ok := srcOf(st.Val)
+			if !ok || sf != "Offset" || !hasField(sb.Type(), "Epoch") {
+				return
+			}
+			// only position carriers rebuilt from another instance of the same type (a request forwarded as
+			// a new request, a position copied as a position); per-publication offsets are a different thing
+			tn := typeShort(fa.X.Type())
+			if tn != typeShort(sb.Type()) || !(strings.HasSuffix(tn, "Request") || tn == "StreamPosition") {
+				return
+			}
+			n++
+			// an Epoch store into the same target from the same source
+			found := false
+			EachInstr(f, func(x ssa.Instruction) {
+				s2, ok := x.(*ssa.Store)
+				if !ok {
+					return
+				}
+				fa2, ok := s2.Addr.(*ssa.FieldAddr)
+				if !ok || fa2.X != fa.X {
+					return
+				}
+				if t2, ok := deref(fa2.X.Type()).Underlying().(*types.Struct); !ok || t2.Field(fa2.Field).Name() != "Epoch" {
+					return
+				}
+				if b2, f2, ok := srcOf(s2.Val); ok && f2 == "Epoch" && D(b2) == D(sb) {
+					found = true
+				}
+			})
+			c.Check("C02.R7", st, "an offset copied from "+typeShort(sb.Type())+" travels with that object's epoch", found,
+				"the target "+typeShort(fa.X.Type())+" gets its Offset from "+D(sb)+" but not its Epoch: recovery compares epochs only when both are non-empty, so the lost epoch makes a position in a different stream look recoverable")
+		})
+	}
+	c.Anchor("C02.R7", "offset copies between position-carrying objects", n >= 1)
 }
